@@ -136,14 +136,26 @@ def build(history, schema=None, **schema_kw):
         st = RamStorage()
     ix = st.create_index(schema)
     live, order, alldocs = {}, [], {}
-    for commit in history["commits"]:
-        w = ix.writer(codec=W3Codec(blocklimit=history.get("blocklimit", 128)))
+    ncommits = len(history["commits"])
+    for ci, commit in enumerate(history["commits"]):
+        codec = W3Codec(blocklimit=history.get("blocklimit", 128))
+        mp_last = history.get("front") == "serialmp-optimize" and ci == ncommits - 1 and ncommits > 1
+        if mp_last:
+            # the last commit goes through the multi-process writer's machinery (in process) and folds the earlier segments
+            # into the same final segment: sub-segments and merged segments meet in one writer
+            from whoosh.multiproc import SerialMpWriter
+            w = SerialMpWriter(ix, procs=2, codec=codec)
+        else:
+            w = ix.writer(codec=codec)
         for d in commit:
             w.add_document(**d)
             live[d["id"]] = d
             alldocs[d["id"]] = d
             order.append(d["id"])
-        w.commit(merge=False)
+        if mp_last:
+            w.commit(optimize=True)
+        else:
+            w.commit(merge=False)
     if history["deletes"]:
         w = ix.writer()
         for key in history["deletes"]:
